@@ -393,14 +393,44 @@ pub struct Pipeline {
 pub struct UserFn {
     pub name: String,
     pub params: Vec<String>,
+    /// named parameters with integer defaults; in `body` they follow the positional ones
+    pub named: Vec<(String, i64)>,
+    pub style: CallStyle,
     pub body: E,
+}
+
+#[derive(Clone, Copy, Debug, PartialEq, Eq)]
+pub enum CallStyle {
+    /// `f a`
+    Plain,
+    /// `f y:1 a` (named argument given explicitly, equal to its default)
+    NamedExplicit,
+    /// `(a | f)`
+    Piped,
+}
+
+#[derive(Clone, Copy, Debug, PartialEq, Eq)]
+pub enum LetStyle {
+    Let,
+    /// `from .. | into name`
+    Into,
+    /// `module m { let name = (..) }`, referred to as `m.name`
+    Module,
 }
 
 #[derive(Clone, Debug, PartialEq, Default)]
 pub struct Program {
     pub funcs: Vec<UserFn>,
     pub lets: Vec<(String, Pipeline)>,
+    /// how each let-table is written (missing = `let`)
+    pub let_style: Vec<LetStyle>,
     pub main: Option<Pipeline>,
+}
+
+impl Program {
+    pub fn style(&self, i: usize) -> LetStyle {
+        self.let_style.get(i).copied().unwrap_or(LetStyle::Let)
+    }
 }
 
 // ------------------------------------------------------------------ static frames
@@ -570,7 +600,8 @@ pub fn step_frame(s: &Step, f: &Frame, prog: &Program) -> Frame {
 
 // ------------------------------------------------------------------ printer
 
-fn pr_expr(e: &E, f: &Frame, prog: &Program, top: bool) -> String {
+fn pr_expr(e: &E, fr: &Frame, prog: &Program, top: bool) -> String {
+    let f = fr;
     match e {
         E::Col(i) => f.refname(*i).unwrap_or_else(|| format!("<unref {i}>")),
         E::Int(i) => {
@@ -609,12 +640,23 @@ fn pr_expr(e: &E, f: &Frame, prog: &Program, top: bool) -> String {
             }
         }
         E::Call(i, args) => {
-            let s = format!(
-                "{} {}",
-                prog.funcs[*i].name,
-                args.iter().map(|a| pr_expr(a, f, prog, false)).collect::<Vec<_>>().join(" ")
-            );
-            if top {
+            let f = &prog.funcs[*i];
+            let a: Vec<String> = args.iter().map(|a| pr_expr(a, fr, prog, false)).collect();
+            let s = match f.style {
+                CallStyle::Plain => format!("{} {}", f.name, a.join(" ")),
+                CallStyle::NamedExplicit => format!(
+                    "{} {} {}",
+                    f.name,
+                    f.named.iter().map(|(n, d)| format!("{n}:{d}")).collect::<Vec<_>>().join(" "),
+                    a.join(" ")
+                ),
+                CallStyle::Piped => {
+                    let (last, init) = a.split_last().unwrap();
+                    format!("({} | {} {})", last, f.name, init.join(" ")).replace(" )", ")")
+                }
+            };
+            let _ = top;
+            if f.style == CallStyle::Piped {
                 s
             } else {
                 format!("({s})")
@@ -647,7 +689,10 @@ fn pr_range(lo: Option<i64>, hi: Option<i64>) -> String {
 pub fn pr_source(src: &Source, prog: &Program, as_from: bool) -> String {
     match src {
         Source::Table(n) => pr_ident(n),
-        Source::Let(i) => pr_ident(&prog.lets[*i].0),
+        Source::Let(i) => match prog.style(*i) {
+            LetStyle::Module => format!("mm.{}", pr_ident(&prog.lets[*i].0)),
+            _ => pr_ident(&prog.lets[*i].0),
+        },
         Source::Lit(names, rows) => {
             let rs: Vec<String> = rows
                 .iter()
@@ -793,20 +838,23 @@ pub fn pr_pipeline(p: &Pipeline, prog: &Program, sep: &str) -> String {
 pub fn pr_program(prog: &Program) -> String {
     let mut out = String::new();
     for f in &prog.funcs {
+        let mut names: Vec<String> = f.params.clone();
+        names.extend(f.named.iter().map(|(n, _)| n.clone()));
         let pf = Frame {
-            cols: f.params.iter().map(|p| FCol { name: Some(p.clone()), input: None }).collect(),
+            cols: names.iter().map(|p| FCol { name: Some(p.clone()), input: None }).collect(),
             inputs: vec![],
             open: vec![],
         };
-        out.push_str(&format!(
-            "let {} = func {} -> {}\n",
-            f.name,
-            f.params.join(" "),
-            pr_expr(&f.body, &pf, prog, true)
-        ));
+        let mut sig: Vec<String> = f.named.iter().map(|(n, d)| format!("{n}:{d}")).collect();
+        sig.extend(f.params.iter().cloned());
+        out.push_str(&format!("let {} = func {} -> {}\n", f.name, sig.join(" "), pr_expr(&f.body, &pf, prog, true)));
     }
-    for (n, p) in &prog.lets {
-        out.push_str(&format!("let {} = (\n  {}\n)\n", pr_ident(n), pr_pipeline(p, prog, "\n  ")));
+    for (i, (n, p)) in prog.lets.iter().enumerate() {
+        match prog.style(i) {
+            LetStyle::Let => out.push_str(&format!("let {} = (\n  {}\n)\n", pr_ident(n), pr_pipeline(p, prog, "\n  "))),
+            LetStyle::Into => out.push_str(&format!("{}\ninto {}\n\n", pr_pipeline(p, prog, "\n"), pr_ident(n))),
+            LetStyle::Module => out.push_str(&format!("module mm {{\n  let {} = (\n    {}\n  )\n}}\n", pr_ident(n), pr_pipeline(p, prog, "\n    "))),
+        }
     }
     if let Some(m) = &prog.main {
         out.push_str(&pr_pipeline(m, prog, "\n"));
@@ -948,7 +996,8 @@ impl<'a> Interp<'a> {
             }
             E::Call(i, args) => {
                 let f = &self.prog.funcs[*i];
-                let vals: Vec<V> = args.iter().map(|a| self.eval(a, row, seg)).collect::<R<_>>()?;
+                let mut vals: Vec<V> = args.iter().map(|a| self.eval(a, row, seg)).collect::<R<_>>()?;
+                vals.extend(f.named.iter().map(|(_, d)| V::Int(*d)));
                 let prow = Row { vals, keys: vec![] };
                 self.eval(&f.body, &prow, None)?
             }
